@@ -90,6 +90,9 @@ pub fn check(case: &Case) -> Verdict {
 
 pub fn check_with(m: &AnyM, case: &Case) -> Verdict {
     let input = &case.input.0;
+    if crate::gen::starts_with_bom(input) {
+        return Verdict::Reject("input starts with a byte-order mark (transcoding is C17's subject)");
+    }
     let full = run_any(m, &case.cfg, &case.strat, input, None, None);
     if let Err(e) = &full.result {
         return Verdict::Fail(Fail::new(format!("uninterrupted search failed: {e}\n case={case:?}")));
